@@ -603,7 +603,9 @@ fn run_canonical(levels: &[&Level], bodies: &[&str], descs: &[&str], acc: &mut A
     // `range`): no text is added, so every answer must be the one above. `super()` is a function
     // call too, so this is done for every chain that calls it - seeded change C04-10 decided "does this block call super()" from the first
     // function call of the body only.
-    if !divergent && bodies.iter().any(|b| b.contains("super()")) {
+    // (chains of three or more levels: only those whose root places b bare - the seven placements of
+    // b in the root multiply the chains by five and have nothing to do with the calls; cost)
+    if !divergent && bodies.iter().any(|b| b.contains("super()")) && (levels.len() < 3 || !descs[0].contains('@')) {
         let decorated: Vec<String> = bodies.iter().map(|b| with_call_in_blocks(b)).collect();
         let drefs: Vec<&str> = decorated.iter().map(|s| s.as_str()).collect();
         let probes = true;
@@ -852,6 +854,38 @@ fn main() {
     let words_full = format!("over the {}-option root alphabet and the {}-option child alphabet {{a, n, b}}", full_root.len(), full_rest.len());
     for l in 1..=3 {
         chains_family(&mut run, &format!("chains-L{l}"), &full, l, &words_full, if thorough && l == 3 { Some(240.0) } else { None });
+    }
+
+    // ---------------------------------------------------------------- wrapped overrides
+    // A block definition may sit inside a capturing section at the top level of ANY level, not only
+    // of the root: in a child the section itself is never rendered, but the definition inside it is
+    // still that level's override (seeded change C04-11 handed only the top-level block nodes of an
+    // extending template to the compiler). Block b in every placement (bare, filter section, set
+    // block, component call body, and the three two-capture nestings) at every level.
+    {
+        let mut wr_root = vec![];
+        let mut wr_rest = vec![LevelOpt::EMPTY, LevelOpt { a: 2, ..LevelOpt::EMPTY }];
+        for place in 0..=6u8 {
+            for a in [0u8, 1] {
+                for b in [1u8, 2] {
+                    wr_root.push(LevelOpt { a, b, place, ..LevelOpt::EMPTY });
+                }
+            }
+            for a in [0u8, 2] {
+                for b in [1u8, 2, 3] {
+                    wr_rest.push(LevelOpt { a, b, place, ..LevelOpt::EMPTY });
+                }
+            }
+        }
+        let wrapped = Space::from_opts(&wr_root, &wr_rest, 3);
+        let words = format!(
+            "over block b in 7 placements (bare, in a filter section / set block / component call body, in two nested captures) at EVERY level: {} root options, {} child options",
+            wr_root.len(),
+            wr_rest.len()
+        );
+        for l in 2..=3 {
+            chains_family(&mut run, &format!("wrapped-overrides-L{l}"), &wrapped, l, &words, None);
+        }
     }
 
     // ---------------------------------------------------------------- registration orders
